@@ -67,11 +67,14 @@ CLAIMED.update({
             "completes the task (table sweep); nothing offered while held. Tested, not proved: bookkeeping across calls "
             "(each item once per execution, succeeds iff all items succeed, window in every reachable state).",
             "Window counts active items (pending/paused items are not active, as in the engine)."),
-    "C13": ("PARTIAL. Proved: the retry decision is yes only while tally < count and only if the condition holds for the "
-            "latest execution; retrying is entered only by the internal retry event from a completed status and the decision is "
-            "taken only when the table accepts it; a re-offered retry carries the retry delay. Tested, not proved: tally <= count "
-            "over whole histories; no transition/publish for a retried attempt.",
-            "Bound over histories needs the two-level analysis of the re-entrant update_task_state call."),
+    "C13": ("Proved for every evaluator: the retry decision is yes only while tally < count and only if the condition holds for "
+            "the latest execution; retrying is entered only by the internal retry event from a completed status; a re-offered "
+            "retry carries the retry delay; over every history of API calls from the empty history one record enters retrying "
+            "at most max(count,0) times (at most count+1 executions per visit), with no protocol hypothesis; the re-entrant "
+            "update_task_state call terminates (the model's recursion bound is never reached over composed graphs). Tested, "
+            "not proved: no transition/publish fires for a retried attempt.",
+            "The engine's own tally can run ahead of the retries (an ignored event on a retrying record is counted; shown by "
+            "Examples) -- this costs retries and never adds an execution, so it is not a violation of the bound."),
 })
 
 CLAIMED.update({
@@ -136,6 +139,21 @@ CLAIMED.update({
             "every status in which nothing may be offered. Tested, not proved: identical artefacts across interpreter hash "
             "seeds (subprocess replay, key order included); query idempotence while running.",
             "Hash-seed dependence is a CPython behaviour no Gallina model exhibits."),
+})
+
+CLAIMED.update({
+    "C15": ("PARTIAL. Proved about the model of the inspection detectors (coq/model/Inspect.v): every reachable transition "
+            "to an undefined task is reported and nothing else is (sound, complete, total for unique task names); every task "
+            "named like an engine command is reported; the absence of a start task is reported exactly when there is none; "
+            "a definition whose semantic report is empty has a start task, no reserved names, only defined or command "
+            "targets behind reachable tasks, and composes (compose fails only by fuel); the inspected positions and their "
+            "order are exactly the expected ones (regenerated from /repo on every run); per spec object an unassigned "
+            "variable is reported iff referenced before any assignment; evaluation failures never escape an API call (C11). "
+            "Tested, not proved: grammar validation and the regex extraction of references (oracles, fault injection at every "
+            "inspected position), the context worklist over the task graph, and 'accepted => no internal error under every "
+            "history' (generated accepted definitions under random histories in lock step with the conductor model).",
+            "Known findings listing C15: D1, D8, D21, D24, D25 and C15-rerun-of-inflight-task. Single-fault mutants of "
+            "every generated base are judged both ways against the real inspect() and an independent reference reading."),
 })
 
 NOT_YET = {}
